@@ -479,3 +479,19 @@ Definition entry_of (locals rcs : list codec) (m : mt) (c : codec) : Prop :=
     c = set_fb r (fb_intersection (c_fb lc) (c_fb r)).
 
 Definition has_pt (p : N) (l : list codec) : Prop := exists q, In q l /\ c_pt q = p.
+
+(* ---------- vocabulary of the C16 statements ---------- *)
+
+(* same codec description: mime type, clock rate, channels, fmtp line *)
+Definition same_desc (a b : codec) : Prop :=
+  c_mime a = c_mime b /\ c_clock a = c_clock b /\ c_channels a = c_channels b /\ c_line a = c_line b.
+
+(* o is "the same codec" as r in the sense of codecParametersFuzzySearch:
+   an exact match (fmtp-aware) or equal mime type (ignoring case), clock rate
+   and channels (modulo the defaults for 0) *)
+Definition compatible (o r : codec) : Prop := exact_ok o r = true \/ partial_ok o r = true.
+
+(* a preference entry that keeps its own payload type is harmless when that
+   payload type is an offered one for a compatible codec *)
+Definition pref_grounded (offered : list codec) (p : codec) : Prop :=
+  exists r, In r offered /\ c_pt r = c_pt p /\ compatible p r.
